@@ -24,13 +24,13 @@ def main():
         version=1,
         setup_cmd='bin/setup',
         hooks=dict(guard='getsentry_rust_sourcemap_verif',
-                   enable='RUSTFLAGS="--cfg getsentry_rust_sourcemap_verif" (only the Kani/replay harness crate uses it; Verus needs no hooks: it works on text extracted from /repo/src)',
+                   enable='no hooks exist in /repo: Verus works on text extracted from /repo/src and the bounded harnesses use the public API (RUSTFLAGS="--cfg getsentry_rust_sourcemap_verif" is reserved and unused)',
                    baseline_off_cmd='cd /repo && cargo test --workspace --no-fail-fast --offline',
                    source_commits=claims.HOOK_COMMITS, add_only=True),
         engines=[dict(name='verus-contracts', path='/verif/vx', serves_properties=registry.PROPERTIES,
                       kind_free_text='Python extractor/splicer + contract overlays (contracts/*.ctr) + spec library (spec/*.rs) + trusted shims (prelude/*.rs); Verus 0.2026.09.13 discharges every obligation'),
-                 dict(name='kani-harnesses', path='/verif/kani', serves_properties=claims.KANI_PROPS,
-                      kind_free_text='Kani 0.68 / CBMC harnesses on the real crate: counterexample search and bounded stand-ins (labelled bounded)')],
+                 dict(name='bounded-stand-ins', path='/verif/bounded', serves_properties=claims.BOUNDED_PROPS,
+                      kind_free_text='Rust crate of exhaustive enumeration harnesses with plain-Rust reference implementations, run on the real crate through its public API: stand-in for items whose proof is lost on a changed tree, counterexamples for failed obligations, labelled bounded stand-ins for parts outside the contracts (never counted as proved)')],
         checks=checks,
         notes=claims.NOTES,
         not_applicable=na,
